@@ -1,1 +1,45 @@
-// harnesses for unit stub_serve (mounted under cfg(kani) by the hook in /repo)
+//! K5 — `impl<S: Serve + Clone> Stub for S` (tarpc/src/client/stub.rs).
+use super::*;
+use crate::server::Serve;
+use crate::verif_kani_support::{any_instant, run};
+use crate::ServerError;
+use std::cell::Cell;
+
+#[derive(Clone)]
+struct Sv<'a> {
+    fail: bool,
+    val: u32,
+    seen: &'a Cell<(u64, u32)>,
+    calls: &'a Cell<u32>,
+}
+impl<'a> Serve for Sv<'a> {
+    type Req = u32;
+    type Resp = u32;
+    async fn serve(self, ctx: context::Context, req: u32) -> Result<u32, ServerError> {
+        self.seen.set((ctx.trace_context.span_id.into(), req));
+        self.calls.set(self.calls.get() + 1);
+        if self.fail {
+            Err(ServerError::new(std::io::ErrorKind::Other, String::new()))
+        } else {
+            Ok(self.val)
+        }
+    }
+}
+
+/// C20 (stub layer): a `Serve` used as a `Stub` is invoked exactly once with the same context
+/// and request; Ok passes through, a ServerError becomes RpcError::Server.
+#[kani::proof]
+#[kani::unwind(6)]
+fn k5_serve_as_stub_passes_through() {
+    let seen = Cell::new((0u64, 0u32));
+    let calls = Cell::new(0u32);
+    let s = Sv { fail: kani::any(), val: kani::any(), seen: &seen, calls: &calls };
+    let (f, v) = (s.fail, s.val);
+    let m: u64 = kani::any();
+    let req: u32 = kani::any();
+    let mut ctx = context::Context { deadline: any_instant(), trace_context: Default::default() };
+    ctx.trace_context.span_id = m.into();
+    let out = run(Stub::call(&s, ctx, req));
+    assert!(calls.get() == 1 && seen.get() == (m, req), "C20: served exactly once with the caller's context and request");
+    assert!(match out { Ok(x) => !f && x == v, Err(RpcError::Server(_)) => f, Err(_) => false }, "C20: result passes through; ServerError is wrapped as RpcError::Server");
+}
